@@ -164,6 +164,8 @@ func checkC19(c *Ctx) Meta {
 	c.Rule("C19-SIBLING", "the two bucket kinds (LDBBucket / LDBReadBucket) agree operation-for-operation on innerKey, subBucket, Get, GetByPrefix, BucketNames and GetBucketMeta", 6)
 	c.Rule("C19-SUBTREE", "deleting a bucket removes its whole subtree: within one activation of the delete routine the enumeration of the bucket's sub-buckets (read from the name index) is not reachable after a descent that unlinks sub-buckets from that index", 1)
 	checkDeleteOrder(c)
+	c.Rule("C19-WMD", "stored entries disappear only through the bucket API: every leveldb delete (Transaction.Delete, Batch.Delete, DB.Delete) in the store's package sits in Bucket.Delete, Bucket.Clear or the bucket-deletion routine (or a helper used by them alone) — no maintenance pass, open path or other function removes entries by its own reading of the keys", 4)
+	checkWhoMayDelete(c, "C19-WMD")
 	c.Rule("C19-UPDATE", "db.Update rolls back on a closure error and returns Commit's result otherwise (shared with C12-E)", 3)
 
 	sep, _ := constVal(c, pkgLDB, "bucketPathSep")
@@ -998,4 +1000,49 @@ func firstDiff(a, b []string) string {
 		}
 	}
 	return fmt.Sprintf("length %d vs %d", len(a), len(b))
+}
+
+// checkWhoMayDelete (C19-WMD): census of the leveldb delete operations of the store package.
+func checkWhoMayDelete(c *Ctx, rule string) {
+	allowedNames := map[string]bool{"(*LDBBucket).Delete": true, "(*LDBBucket).Clear": true, "deleteBucket": true, "(*LDBBucket).DeleteBucket": true}
+	allowed := map[*ssa.Function]bool{}
+	for name := range allowedNames {
+		if f := c.Fn("poc/wallet/db/ldb", name); f != nil {
+			for _, g := range bodyFns(f, nil) {
+				allowed[g] = true
+			}
+		}
+	}
+	var fns []*ssa.Function
+	for fn := range c.AllFuncs {
+		if fn != nil && fn.Blocks != nil && pkgOf(outermost(fn)) == pkgLDB {
+			fns = append(fns, fn)
+		}
+	}
+	sort.Slice(fns, func(i, j int) bool { return FuncName(fns[i]) < FuncName(fns[j]) })
+	n := 0
+	for _, fn := range fns {
+		k := 0
+		allInstrsShallow(fn, func(in ssa.Instruction) {
+			cl, ok := in.(*ssa.Call)
+			if !ok {
+				return
+			}
+			id := calleeID(cl)
+			if !(strings.HasSuffix(id, "leveldb.Transaction).Delete") || strings.HasSuffix(id, "leveldb.Batch).Delete") || strings.HasSuffix(id, "leveldb.DB).Delete")) {
+				return
+			}
+			n++
+			k++
+			key := FuncName(outermost(fn)) + ":delete#" + fmt.Sprint(k)
+			if allowed[fn] || allowed[outermost(fn)] {
+				c.OK(rule, key, c.Pos(cl.Pos()), "a delete of the bucket API")
+			} else {
+				c.Bad(rule, key, c.Pos(cl.Pos()), "entries are deleted outside Bucket.Delete / Bucket.Clear / the bucket-deletion routine: a pass that decides by its own reading of the stored keys which entries to remove can remove committed data of a live bucket (keys are arbitrary bytes and may contain the separator)")
+			}
+		})
+	}
+	if n == 0 {
+		c.Bad(rule, "anchor", "", "reason=anchor-missing: no leveldb delete in the store package")
+	}
 }
